@@ -285,8 +285,8 @@ func (o OracleC07) checkRedelegations(x *Exec, op *Op, pre, post *Snap, f *big.R
 			x.Label("c07:merged-record")
 			continue
 		}
-		x.Fail("C07", "redelegation-amount", "slash of validator %d by %s: destination position %s lost %s shares; the pending redelegations out of the slashed validator call for %s tokens (price bracket applied)",
-			op.V, f.FloatString(18), d.Key(), removed.FloatString(18), spec[pk])
+		x.Fail("C07", "redelegation-amount", "slash of validator %d by %s: destination position %s lost %s shares; the pending redelegations out of the slashed validator call for %s tokens, i.e. %s",
+			op.V, f.FloatString(18), d.Key(), removed.FloatString(18), spec[pk], x.lastBracket)
 	}
 }
 
@@ -308,7 +308,7 @@ func (OracleC07) sharesWithin(x *Exec, pre, post *Snap, d DelSnap, pk posKey, to
 	}
 	// The module knows a validator's token value only to within TotalTokens*1e-18
 	// (a ratio rounded at 18 digits multiplied by the asset total): stated tolerance §2.6.
-	tol := tolFor(post.Assets[pk.Denom].TotalTokens.BigInt())
+	tol := assetTol(pre, post, pk.Denom)
 	vtLo := new(big.Rat).Sub(vt, tol)
 	vtHi := new(big.Rat).Add(vt, tol)
 	t := new(big.Rat).SetInt(tokens)
@@ -339,5 +339,6 @@ func (OracleC07) sharesWithin(x *Exec, pre, post *Snap, d DelSnap, pk posKey, to
 	if lo.Sign() < 0 {
 		lo = new(big.Rat)
 	}
+	x.lastBracket = fmt.Sprintf("[%s, %s] shares (validator value %s, tolerance %s)", lo.FloatString(6), hi.FloatString(6), vt.FloatString(3), tol.FloatString(3))
 	return removed.Cmp(lo) >= 0 && removed.Cmp(hi) <= 0
 }
